@@ -1326,6 +1326,335 @@ def translate_stream(repo: str):
     return out
 
 
+# ------------------------------------------------------------------------------------------------
+# The decoder's validators (model/message.py) -> Generated/CodecBodies.lean over Model/LitCodec.lean
+
+PROTOCOL_ATTRS = {"INTERNAL_COMMAND_TYPE": ("(Gen.internalCommand v)", "int"), "NODE_ID_REQUEST_TYPES": ("(Gen.nodeIdRequestTypes v)", "intset"),
+                  "STRICT_SYSTEM_COMMAND_TYPES": ("(Gen.strictSystemCommands v)", "intset"),
+                  "VALID_SYSTEM_COMMAND_TYPES": ("(Gen.validSystemCommands v)", "intset"), "Command": ("<Command>", "cmdenum")}
+CODEC_FUNCS = {"validate_command": "validate_command", "validate_message_type": "validate_message_type",
+               "validate_child_id": "validate_child_id"}
+
+
+class TrCodec:
+    def __init__(self, fn, params: dict):
+        self.fn = fn
+        self.globals = fn.__globals__
+        self.env = dict(params)      # name -> (lean, type): 'str' | 'int' | 'data' | 'protocol' | 'intset' | 'range' | 'ignored'
+        self.n = 0
+        self.uses_v = False
+
+    def fresh(self, b):
+        self.n += 1
+        return f"{b}{self.n}"
+
+    def const(self, node):
+        if isinstance(node, ast.Name) and node.id not in self.env and node.id in self.globals:
+            val = self.globals[node.id]
+            if isinstance(val, bool):
+                return None
+            if isinstance(val, int):
+                return lean_int(int(val)), "int"
+        return None
+
+    def expr(self, node):
+        """-> (pre, text, type); pre = [(var, CM term)]"""
+        if isinstance(node, ast.Constant) and isinstance(node.value, int) and not isinstance(node.value, bool):
+            return [], lean_int(node.value), "int"
+        c = self.const(node)
+        if c:
+            return [], c[0], c[1]
+        if isinstance(node, ast.Name) and node.id in self.env:
+            t, ty = self.env[node.id]
+            return [], t, ty
+        # protocol.ATTR
+        if isinstance(node, ast.Attribute) and isinstance(node.value, ast.Name) and self.env.get(node.value.id, ("", ""))[1] == "protocol" \
+                and node.attr in PROTOCOL_ATTRS:
+            self.uses_v = True
+            return [], *PROTOCOL_ATTRS[node.attr]
+        # data["key"]
+        if isinstance(node, ast.Subscript) and isinstance(node.value, ast.Name) and self.env.get(node.value.id, ("", ""))[1] == "data" \
+                and isinstance(node.slice, ast.Constant) and isinstance(node.slice.value, str):
+            v = self.fresh("raw")
+            return [(v, f'(LC.dataAt {self.env[node.value.id][0]} "{node.slice.value}")')], v, "str"
+        # int(x)
+        if isinstance(node, ast.Call) and isinstance(node.func, ast.Name) and node.func.id == "int" and len(node.args) == 1 and not node.keywords:
+            p, t, ty = self.expr(node.args[0])
+            if ty != "str":
+                raise Untranslatable("int(non-str)")
+            v = self.fresh("n")
+            return p + [(v, f"(LC.pyIntC {t})")], v, "int"
+        # another translated function
+        if isinstance(node, ast.Call) and isinstance(node.func, ast.Name) and node.func.id in CODEC_FUNCS \
+                and self.globals.get(node.func.id) is not None:
+            callee = self.globals[node.func.id]
+            sig = inspect.signature(callee)
+            try:
+                bound = sig.bind(*node.args, **{k.arg: k.value for k in node.keywords})
+            except TypeError as err:
+                raise Untranslatable(f"call of {node.func.id}: {err}") from err
+            pre, args = [], []
+            for pname in sig.parameters:
+                if pname not in bound.arguments:
+                    raise Untranslatable(f"call of {node.func.id} without {pname}")
+                p, t, ty = self.expr(bound.arguments[pname])
+                pre += p
+                if ty == "protocol":
+                    continue
+                args.append(t)
+            name = node.func.id
+            if name == "validate_child_id":
+                self.uses_v = True
+                text = f"(GenCodec.validate_child_id v {' '.join(args)})"
+            else:
+                text = f"(GenCodec.{name} {' '.join(args)})"
+            v = self.fresh("x")
+            return pre + [(v, text)], v, "int"
+        # {member.value for member in tuple(command_type)}
+        if isinstance(node, ast.SetComp) and len(node.generators) == 1 and not node.generators[0].ifs:
+            g = node.generators[0]
+            it = g.iter
+            if isinstance(it, ast.Call) and isinstance(it.func, ast.Name) and it.func.id == "tuple" and len(it.args) == 1:
+                it = it.args[0]
+            p, t, ty = self.expr(it)
+            if ty == "cmdenum" and isinstance(g.target, ast.Name) and isinstance(node.elt, ast.Attribute) \
+                    and node.elt.attr == "value" and isinstance(node.elt.value, ast.Name) and node.elt.value.id == g.target.id:
+                self.uses_v = True
+                return p, "(Gen.commandValues v)", "intset"
+        # validate.Range(min=a, max=b, error=...)
+        if isinstance(node, ast.Call) and isinstance(node.func, ast.Attribute) and node.func.attr == "Range" \
+                and isinstance(node.func.value, ast.Name) and node.func.value.id == "validate" and not node.args:
+            kw = {k.arg: k.value for k in node.keywords}
+            if set(kw) - {"min", "max", "error"} or "min" not in kw or "max" not in kw:
+                raise Untranslatable("validate.Range arguments")
+            pl, lo, tl = self.expr(kw["min"])
+            ph, hi, th = self.expr(kw["max"])
+            if pl or ph or tl != "int" or th != "int":
+                raise Untranslatable("validate.Range bounds")
+            return [], f"{lo} {hi}", "range"
+        if isinstance(node, ast.JoinedStr) or (isinstance(node, ast.Constant) and isinstance(node.value, str)):
+            return [], "<text>", "ignored"
+        raise Untranslatable(f"codec expression {ast.unparse(node)[:60]}")
+
+    def cond(self, node):
+        if isinstance(node, ast.BoolOp) and isinstance(node.op, ast.And):
+            parts = [self.cond(v) for v in node.values]
+            if any(p[0] for p in parts):
+                raise Untranslatable("effectful condition")
+            return [], "(" + " && ".join(p[1] for p in parts) + ")"
+        if isinstance(node, ast.Compare) and len(node.ops) == 1:
+            op = node.ops[0]
+            pl, l, tl = self.expr(node.left)
+            pr, r, tr_ = self.expr(node.comparators[0])
+            if pl or pr:
+                raise Untranslatable("effectful condition")
+            if isinstance(op, (ast.Eq, ast.NotEq)) and tl == tr_ == "int":
+                return [], f"({l} {'==' if isinstance(op, ast.Eq) else '!='} {r})"
+            if isinstance(op, (ast.In, ast.NotIn)) and tl == "int" and tr_ == "intset":
+                t = f"({r}.contains {l})"
+                return [], (t if isinstance(op, ast.In) else f"(!{t})")
+        raise Untranslatable(f"codec condition {ast.unparse(node)[:60]}")
+
+    def wrap(self, pre, body, catch=None):
+        for v, m in reversed(pre):
+            if catch:
+                m = f"(LC.catchV {m} {catch})"
+            body = f"(LC.bind {m} fun {v} =>\n  {body})"
+        return body
+
+    def vraise(self, st) -> bool:
+        if isinstance(st, ast.Raise) and st.exc is not None:
+            e = st.exc
+            name = e.func.id if isinstance(e, ast.Call) and isinstance(e.func, ast.Name) else (e.id if isinstance(e, ast.Name) else None)
+            return name == "ValidationError" and self.globals.get("ValidationError") is not None
+        return False
+
+    def block(self, stmts) -> str:
+        stmts = strip(stmts)
+        if not stmts:
+            raise Untranslatable("validator falls off its end")
+        st, rest = stmts[0], stmts[1:]
+        if isinstance(st, ast.Return) and st.value is not None:
+            if rest:
+                raise Untranslatable("code after return")
+            p, t, ty = self.expr(st.value)
+            if ty != "int":
+                raise Untranslatable("validator returns a non-int")
+            return self.wrap(p, f"(.ok {t})")
+        if self.vraise(st):
+            return "(.error .validation)"
+        if isinstance(st, ast.Try):
+            if st.finalbody or st.orelse or len(st.handlers) != 1 or not (len(strip(st.handlers[0].body)) == 1 and self.vraise(strip(st.handlers[0].body)[0])):
+                raise Untranslatable("try shape in a validator")
+            h = st.handlers[0]
+            elts = h.type.elts if isinstance(h.type, ast.Tuple) else [h.type]
+            names = []
+            for e in elts:
+                if not isinstance(e, ast.Name) or e.id not in PYEXN:
+                    raise Untranslatable("except class in a validator")
+                names.append("." + e.id)
+            catch = "[" + ", ".join(names) + "]"
+            body = strip(st.body)
+            # try: return int(value)
+            if len(body) == 1 and isinstance(body[0], ast.Return):
+                if rest:
+                    raise Untranslatable("code after return")
+                p, t, ty = self.expr(body[0].value)
+                if ty != "int":
+                    raise Untranslatable("validator returns a non-int")
+                return self.wrap(p, f"(.ok {t})", catch)
+            # try: a = E1; b = E2 ...   (plain assignments: the clause applies to each of them)
+            acc = []
+            for b in body:
+                if not (isinstance(b, ast.Assign) and len(b.targets) == 1 and isinstance(b.targets[0], ast.Name)):
+                    raise Untranslatable("try body that is not a list of assignments")
+                p, t, ty = self.expr(b.value)
+                self.env[b.targets[0].id] = (t, ty)
+                acc += p
+            return self.wrap(acc, self.block(rest), catch)
+        if isinstance(st, ast.Assign) and len(st.targets) == 1 and isinstance(st.targets[0], ast.Name):
+            name = st.targets[0].id
+            v = st.value
+            # protocol = self.context.get("protocol")
+            if isinstance(v, ast.Call) and isinstance(v.func, ast.Attribute) and v.func.attr == "get" and isinstance(v.func.value, ast.Attribute) \
+                    and v.func.value.attr == "context" and len(v.args) == 1 and isinstance(v.args[0], ast.Constant) and v.args[0].value == "protocol":
+                self.env[name] = ("<protocol>", "protocol")
+                # the following `if protocol is None: raise ValidationError` cannot fire: Gateway sets the protocol in __init__
+                if rest and isinstance(rest[0], ast.If) and isinstance(rest[0].test, ast.Compare) and isinstance(rest[0].test.ops[0], ast.Is) \
+                        and isinstance(rest[0].test.left, ast.Name) and rest[0].test.left.id == name and not rest[0].orelse \
+                        and len(strip(rest[0].body)) == 1 and self.vraise(strip(rest[0].body)[0]):
+                    rest = rest[1:]
+                return self.block(rest)
+            p, t, ty = self.expr(v)
+            self.env[name] = (t, ty)
+            return self.wrap(p, self.block(rest)) if p else self.block(rest)
+        # child_range(child_id)
+        if isinstance(st, ast.Expr) and isinstance(st.value, ast.Call) and isinstance(st.value.func, ast.Name) \
+                and self.env.get(st.value.func.id, ("", ""))[1] == "range" and len(st.value.args) == 1:
+            p, t, ty = self.expr(st.value.args[0])
+            if p or ty != "int":
+                raise Untranslatable("range validator argument")
+            return f"(LC.seq (LC.rangeV {self.env[st.value.func.id][0]} {t})\n  {self.block(rest)})"
+        if isinstance(st, ast.If) and not st.orelse:
+            body = strip(st.body)
+            # if C: x = E   -> conditional rebinding of a set-valued local
+            if len(body) == 1 and isinstance(body[0], ast.Assign) and isinstance(body[0].targets[0], ast.Name) \
+                    and body[0].targets[0].id in self.env and self.env[body[0].targets[0].id][1] == "intset":
+                _, c = self.cond(st.test)
+                name = body[0].targets[0].id
+                p, t, ty = self.expr(body[0].value)
+                if p or ty != "intset":
+                    raise Untranslatable("conditional rebinding")
+                self.env[name] = (f"(if {c} then {t} else {self.env[name][0]})", "intset")
+                return self.block(rest)
+            _, c = self.cond(st.test)
+            saved = dict(self.env)
+            if body and (isinstance(body[-1], ast.Return) or self.vraise(body[-1])):
+                a = self.block(body)
+                self.env = saved
+                return f"(if {c} then {a}\n  else {self.block(rest)})"
+            # non-terminating branch made of ignorable locals and a nested guard: if C: <locals>; if D: raise
+            inner = [b for b in body if not (isinstance(b, ast.Assign) and isinstance(b.targets[0], ast.Name))]
+            for b in body:
+                if isinstance(b, ast.Assign) and isinstance(b.targets[0], ast.Name):
+                    p, t, ty = self.expr(b.value)
+                    if p:
+                        raise Untranslatable("effectful local in a branch")
+                    self.env[b.targets[0].id] = (t, ty)
+            if len(inner) == 1 and isinstance(inner[0], ast.If) and not inner[0].orelse and len(strip(inner[0].body)) == 1 \
+                    and self.vraise(strip(inner[0].body)[0]):
+                _, d = self.cond(inner[0].test)
+                self.env = saved
+                return f"(if ({c} && {d}) then (.error .validation)\n  else {self.block(rest)})"
+            raise Untranslatable("if shape in a validator")
+        raise Untranslatable(f"codec statement {ast.unparse(st)[:60]}")
+
+
+CODEC_HEADER = """/-
+GENERATED by tools/translate.py from the decoder's validators (model/message.py) of the aiomysensors working tree — do not edit.
+Regenerated on every check run of C01 / C02; rewritten only when its content changes.  A definition marked
+`-- snapshot` could not be translated on this run and is the last committed translation.
+-/
+import AioMySensors.Model.LitCodec
+
+set_option linter.unusedVariables false
+
+namespace AioMySensors.GenCodec
+open AioMySensors
+
+"""
+
+CODEC_GLUE = """/-! glue (constant text): `MessageSchema.load` = marshmallow's `Schema.load` around the generated validators -/
+
+def loadGen (v : Ver) (line : Str) : Except PyExn (Option Msg) :=
+  LC.schemaLoad (validate_child_id v) (CommandField_validate_command v) (to_dict line)"""
+
+CODEC_ORDER = ["validate_command", "validate_message_type", "validate_child_id", "CommandField_validate_command", "to_dict"]
+
+
+def translate_codec(repo: str):
+    sys.path.insert(0, os.path.join(repo, "src"))
+    mod = importlib.import_module("aiomysensors.model.message")
+    out = {}
+
+    def attempt(name, f):
+        try:
+            out[name] = {"lean": f()}
+        except (Untranslatable, KeyError, TypeError, OSError, AttributeError, IndexError) as err:
+            out[name] = {"error": f"{type(err).__name__}: {err}"[:300]}
+
+    def simple(fname):
+        fn = getattr(mod, fname)
+        tr = TrCodec(fn, {"value": ("value", "str")})
+        return f"def {fname} (value : Str) : LC.CM Int :=\n  {tr.block(fn_ast(fn).body)}"
+
+    attempt("validate_command", lambda: simple("validate_command"))
+    attempt("validate_message_type", lambda: simple("validate_message_type"))
+
+    def child():
+        fn = mod.validate_child_id
+        if list(inspect.signature(fn).parameters) != ["value", "data", "protocol"]:
+            raise Untranslatable("signature of validate_child_id changed")
+        tr = TrCodec(fn, {"value": ("value", "str"), "data": ("data", "data"), "protocol": ("<protocol>", "protocol")})
+        return f"def validate_child_id (v : Ver) (value : Str) (data : LC.Data) : LC.CM Int :=\n  {tr.block(fn_ast(fn).body)}"
+
+    attempt("validate_child_id", child)
+
+    def command():
+        fn = mod.CommandField.__dict__["validate_command"]
+        if list(inspect.signature(fn).parameters) != ["self", "value", "data"]:
+            raise Untranslatable("signature of CommandField.validate_command changed")
+        tr = TrCodec(fn, {"value": ("value", "str"), "data": ("data", "data")})
+        return f"def CommandField_validate_command (v : Ver) (value : Str) (data : LC.Data) : LC.CM Int :=\n  {tr.block(fn_ast(fn).body)}"
+
+    attempt("CommandField_validate_command", command)
+
+    def to_dict():
+        fn = mod.MessageSchema.__dict__["to_dict"]
+        fn = getattr(fn, "__wrapped__", fn)
+        stmts = strip(fn_ast(fn).body)
+        want = ["list_data = in_data.rstrip().split(DELIMITER, len(self.fields) - 1)",
+                "return dict(zip(self.fields, list_data, strict=False))"]
+        got = [ast.unparse(s) for s in stmts]
+        if got != want:
+            raise Untranslatable("to_dict is not `rstrip().split(DELIMITER, len(fields) - 1)` zipped with the field names: " + " / ".join(got)[:160])
+        if mod.DELIMITER != ";":
+            raise Untranslatable("DELIMITER changed")
+        return ("def to_dict (in_data : Str) : LC.Data :=\n"
+                "  LC.zipDict Gen.messageFields (splitN Gen.delimiter (Gen.messageFields.length - 1) (rstrip in_data))")
+
+    attempt("to_dict", to_dict)
+    # the two custom fields must still hand over to the translated validators
+    try:
+        a = ast.unparse(fn_ast(mod.ChildIdField.__dict__["_deserialize"]).body[-1])
+        b = ast.unparse(fn_ast(mod.CommandField.__dict__["_deserialize"]).body[-1])
+        if a != "return validate_child_id(value=value, data=data, protocol=protocol)" or b != "return self.validate_command(value=value, data=data)":
+            out["validate_child_id"] = {"error": "ChildIdField/CommandField._deserialize no longer end in the validator call"}
+    except Exception as err:  # noqa: BLE001
+        out["validate_child_id"] = {"error": f"custom fields unreadable: {err}"[:200]}
+    return out
+
+
 HEADER = """/-
 GENERATED by tools/translate.py from the handler bodies of the aiomysensors working tree — do not edit.
 Regenerated on every check run; rewritten only when its content changes.  A definition marked
@@ -1440,6 +1769,7 @@ def main() -> int:
     ap.add_argument("--json", default=None, help="write the per-body status here")
     ap.add_argument("--update-snapshot", action="store_true")
     ap.add_argument("--stream-out", default=None, help="also translate StreamTransport into this file")
+    ap.add_argument("--codec-out", default=None, help="also translate the decoder's validators into this file")
     ap.add_argument("--force-snapshot", action="store_true", help="write every body from the snapshot")
     a = ap.parse_args()
     try:
@@ -1515,6 +1845,43 @@ def main() -> int:
             with open(a.snapshot, encoding="utf-8") as f:
                 cur = json.load(f)
             cur.update({"stream." + n: sres[n]["lean"] for n in STREAM_SIGS if "lean" in sres.get(n, {})})
+            with open(a.snapshot, "w", encoding="utf-8") as f:
+                json.dump(cur, f, indent=1, sort_keys=True)
+        if a.json:
+            with open(a.json, "w", encoding="utf-8") as f:
+                json.dump(status, f, indent=1, sort_keys=True)
+    if a.codec_out:
+        try:
+            cres = {} if a.force_snapshot else translate_codec(a.repo)
+        except Exception as err:  # noqa: BLE001
+            print(f"TRANSLATE-CODEC-FAILED {type(err).__name__}: {err}")
+            cres = {}
+        cchunks = []
+        for name in CODEC_ORDER:
+            key = "codec." + name
+            r = cres.get(name, {"error": "snapshot forced" if a.force_snapshot else "not attempted"})
+            if "lean" in r:
+                cchunks.append(r["lean"])
+                status[key] = "translated" if snap.get(key) == r["lean"] else "translated-changed"
+            elif key in snap:
+                cchunks.append("-- snapshot (untranslatable on this run: " + r["error"].replace("\n", " ") + ")\n" + snap[key])
+                status[key] = "untranslatable: " + r["error"]
+            else:
+                print(f"TRANSLATE-FAILED {key}: {r['error']} (and no snapshot)")
+                return 1
+        ctext = CODEC_HEADER + "\n\n".join(cchunks) + "\n\n" + CODEC_GLUE + "\n\nend AioMySensors.GenCodec\n"
+        try:
+            with open(a.codec_out, encoding="utf-8") as f:
+                cold = f.read()
+        except OSError:
+            cold = None
+        if cold != ctext:
+            with open(a.codec_out, "w", encoding="utf-8") as f:
+                f.write(ctext)
+        if a.update_snapshot:
+            with open(a.snapshot, encoding="utf-8") as f:
+                cur = json.load(f)
+            cur.update({"codec." + n: cres[n]["lean"] for n in CODEC_ORDER if "lean" in cres.get(n, {})})
             with open(a.snapshot, "w", encoding="utf-8") as f:
                 json.dump(cur, f, indent=1, sort_keys=True)
         if a.json:
